@@ -141,6 +141,9 @@ class C02:
                     meta.append((cfg, data, want[cfg[0] == "1"], tk))
         go = C.run_sharded(C.run_go, lines)
         sens, lean = alias_sensitive(lines)
+        # the Lean model of CPython's unpickler must read CPython's own pickles as CPython does
+        datas = list(dict.fromkeys(m[1] for m in meta))
+        pvm_tie(ctx, datas, C.run_sharded(C.run_py, [f"load {hexs(d)}" for d in datas]))
         for line, (cfg, data, want, tk), g, l, k1 in zip(lines, meta, go, lean, sens):
             ctx.evaluations += 1
             ctx.nontrivial((cfg, data))
@@ -273,7 +276,8 @@ class C06:
                   "those on which the value- and reference-list machines of the model differ), and the Lean model of CPython's "
                   "unpickler is compared with the real one on the same programs.")
     level_note = "trusted: Lean kernel + standard axioms; decoder model (both list semantics); CPython's pure-Python unpickler as reference"
-    technique = "Lean 4 proof (machine lemmas, K1 witness) + differential correspondence against CPython's unpickler on typed-grammar and exhaustive short programs"
+    technique = ("Lean 4 proof (machine lemmas, K1 witness; both unpicklers on every encoder output) + differential correspondence against "
+                 "CPython's unpickler - and of the Lean model of that unpickler against it - on typed-grammar and exhaustive short programs")
     rule = ("programs from a typed grammar over an abstract stack of value kinds (every opcode variant og-rek supports, PUT/GET in all "
             "widths, MEMOIZE, DUP, POP, incremental APPEND(S)/SETITEM(S), PROTO/FRAME anywhere, py2-style STRING/UNICODE text forms), "
             "plus all programs of <= 4 (quick, sampled at 4) / <= 5 (thorough) opcodes over a 17-opcode reduced alphabet; x 4 modes; "
@@ -368,21 +372,28 @@ class C06:
 
 class C09:
     prop = "C09"
-    lean_module = "Ogorek.Props.C09"
-    theorems = ["Ogorek.C09_setitem_dict", "Ogorek.C09_setitem_map", "Ogorek.C09_dictSet_classes", "Ogorek.C09_map_identity",
+    lean_module = "Ogorek.Props.C09Py"
+    theorems = ["Ogorek.C09_python_dict", "Ogorek.C09_python_dict_step", "Ogorek.C09_setitem_python", "Ogorek.keyConv_eq", "Ogorek.pyEq_trans",
+                "Ogorek.pyEq_symm", "Ogorek.C09_setitem_dict", "Ogorek.C09_setitem_map", "Ogorek.C09_dictSet_classes", "Ogorek.C09_map_identity",
                 "Ogorek.C17_assign_present", "Ogorek.C08_inv_step"]
     trusted_base = TB_PY + ["py2 str vs unicode vs bytes collisions follow og-rek's documented rule (= Python 2 on ASCII, Python 3 with encoding='bytes')"]
     level_text = ("Lean theorems: in PyDict mode every key assignment by SETITEM (and each pair of DICT/SETITEMS, which iterate it) is "
-                  "`dictSetSpec` — drop every entry equal under Python equality, add the new one — so the entry count, the key classes and "
-                  "the final value per class are those of a dict with Python equality (C09_setitem_dict, C09_dictSet_classes, with C07 "
-                  "for the equality and C08_inv_step for the no-two-equal-keys invariant); in default mode the assignment is the builtin "
+                  "`dictSetSpec` — drop every entry equal under Python equality, add the new one (C09_setitem_dict, C09_dictSet_classes, "
+                  "with C07 for the equality and C08_inv_step for the no-two-equal-keys invariant) — and this IS Python's dict: against "
+                  "the Lean model of CPython's dict (`pyDictSet`: the entry with an equal key keeps its key and takes the new value) "
+                  "og-rek's Dict has, after ANY sequence of assignments of keys both sides can hold without a py2 string (None, bool, int64, "
+                  "*big.Int, float, str, bytes, Class, tuples / calls / persistent references of these), the same number of entries and "
+                  "the same answer to every lookup (C09_python_dict, by induction over the history from C09_python_dict_step; "
+                  "C09_setitem_python for the two machines' SETITEM); it rests on `equal` = Python's `==` on those keys (keyConv_eq) and on "
+                  "`==` being symmetric and transitive there (pyEq_symm, pyEq_trans, from the exact-value theorem C07_exact_num); in default mode the assignment is the builtin "
                   "map's, under Go key identity: int64 1, float64 1, true and two distinct *big.Int 1 are four keys, NaN never collides, "
                   "+0/-0 collide (C09_setitem_map, C09_map_identity), and a key a Go map cannot hold yields an error, never a dropped "
                   "entry (C17_*, C17_assign_present). Tie: dict-building programs with colliding keys, nesting and memo re-entry are "
                   "decoded in 4 modes and compared with the model and, in PyDict mode, with a reference dictionary using CPython's == "
                   "(py2-aware), matching entries up to the key representative (Python keeps the first key, og-rek the last).")
     level_note = "trusted: Lean kernel + standard axioms; decoder and Dict models; CPython == inside the reference dictionary"
-    technique = "Lean 4 proof (assignment lemmas over the abstract table) + differential correspondence + CPython-equality reference dictionary"
+    technique = ("Lean 4 proof (og-rek's Dict assignment refines a Lean model of Python's dict for every history: equality transfer, "
+                 "symmetry / transitivity, lookup and length lemmas) + differential correspondence + CPython-equality reference dictionary")
     rule = ("dict-building programs mixing DICT / EMPTY_DICT+SETITEM / SETITEMS with repeated and colliding keys (1, 1.0, True, 1L, +-0, NaN, "
             "'a' unicode / py2 / bytes, tuples of these, big and boundary integers), nested dicts, dicts fetched again from the memo and "
             "extended; x PyDict x StrictUnicode; distinct = distinct (mode, program)")
